@@ -1,6 +1,6 @@
 (* C05 — tree_map family calls the function once per leaf, in order, on aligned arguments. *)
-From OptreeModel Require Import Base Tree Flatten Unflatten Spec Construct Ops Walk.
-From OptreeProofs Require Import OpsProofs WalkProofs Replace MapLaws Subst BroadcastProofs.
+From OptreeModel Require Import Base Tree Flatten Unflatten Spec Construct Ops Walk Accessor.
+From OptreeProofs Require Import OpsProofs WalkProofs Replace MapLaws MapPaths Subst BroadcastProofs.
 
 (* f is called exactly on the rows (leaf_i(t), sub_i(rest_1), ...): once per leaf, in flatten
    order, where sub_i(rest) is the i-th element flatten_up_to returns (the subtree at the i-th leaf's
@@ -13,6 +13,18 @@ Theorem C05_map_calls :
     snd (tree_map_trace c f t rests) = zip_cols (length ls) (ls :: cols).
 Proof. exact map_calls. Qed.
 Print Assumptions C05_map_calls.
+
+(* ... and those columns are the subtrees located at the leaves' paths: for every rest, the i-th element of
+   its column is what the i-th path of t's treespec resolves to in that rest (entry by entry, the way an
+   accessor does) — so row i of the calls is (leaf_i(t), rest_1[path_i], rest_2[path_i], ...) *)
+Theorem C05_map_arguments_by_paths :
+  forall c t ls sp s rests cols,
+    wf_obj t = true -> flatten c t = Ok (ls, sp) -> sspec_of sp = Some s ->
+    Forall (fun r => entries_ok r = true) rests ->
+    mapM (ss_flatten_up_to (c_reg c) s) rests = Ok cols ->
+    Forall2 (fun rest col => Forall2 (fun p x => get_path rest p = Some x) (st_paths (stree_of s)) col) rests cols.
+Proof. intros c t ls sp s rests cols W Hf Hs. exact (map_columns_by_paths c t ls sp s W Hf Hs rests cols). Qed.
+Print Assumptions C05_map_arguments_by_paths.
 
 (* the result is the treespec of t filled with f's values *)
 Theorem C05_map_result :
